@@ -74,6 +74,37 @@ def check_impl(inst, impl):
                 bad.append((p[0] + "-duplicate", l))
             if set(got) != want:
                 bad.append((p[0] + "-inexact", "%s missing=%s extra=%s" % (l, sorted(want - set(got)), sorted(set(got) - want))))
+    # overflow depot must be able to host every vehicle; default depots are unlimited
+    req, maxform, tracks = {}, {}, 0
+    depots, overflow = {}, None
+    for l in impl:
+        p = l.split()
+        if p[0] == "req":
+            req[p[2]] = int(p[3])
+        elif p[0] == "maxform":
+            maxform[p[1]] = None if p[2] == "-" else int(p[2])
+        elif p[0] == "node" and "kind=M" in l:
+            kv = dict(x.split("=") for x in p[2:])
+            tracks += int(kv["tracks"])
+        elif p[0] == "depot":
+            kv = dict(x.split("=") for x in p[2:])
+            depots[p[1]] = kv
+        elif p[0] == "overflow":
+            overflow = p[1]
+    maxv = sum(min(r, maxform[t]) if maxform.get(t) is not None else r for t, r in req.items()) + tracks
+    if overflow is not None and overflow in depots:
+        kv = depots[overflow]
+        caps = [int(c) for c in kv["caps"].split(",") if c != ""]
+        if int(kv["total"]) < maxv or any(c < maxv for c in caps):
+            bad.append(("overflow-capacity", "overflow depot total=%s caps=%s < max vehicles %d" % (kv["total"], kv["caps"], maxv)))
+    if inst.get("depots") is None:
+        for dix, kv in depots.items():
+            if dix == overflow:
+                continue
+            caps = [int(c) for c in kv["caps"].split(",") if c != ""]
+            if int(kv["total"]) < maxv or any(c < maxv for c in caps):
+                bad.append(("default-depot-capacity", "default depot %s total=%s caps=%s < max vehicles %d" % (dix, kv["total"], kv["caps"], maxv)))
+                break
     return bad
 
 
@@ -117,7 +148,7 @@ def main(tier, seed):
     insts = lib.load_corpus(PID) + [instgen.gen_instance(rng) for _ in range(n)]
     results = lib.pmap(run_case, [(d, k, inst) for k, inst in enumerate(insts)])
     return lib.conclude_diff(PID, tier, seed, t0, proof, results, check_impl, features,
-                             strip_model_prefixes=("wf ", "maxvehicles "),
-                             model_flags={"wf true": True},
+                             strip_model_prefixes=("wf ", "maxvehicles ", "ovf "),
+                             model_flags={"wf true": True, "ovf true": True},
                              what="Network getters after load (nodes, depots, can_reach matrix, successors, "
                                   "predecessors, required vehicles, limits, depot orderings, timing getters)")
